@@ -883,8 +883,19 @@ namespace bloch::update {
                 std::filesystem::perms::others_exec,
             std::filesystem::perm_options::add, ec);
 
-        std::filesystem::copy_file(*newBinary, installPath,
+        // A running executable cannot be opened for writing ("Text file busy"): the new binary
+        // is written beside it and renamed over it.
+        auto staged = installPath;
+        staged += ".new";
+        std::filesystem::copy_file(*newBinary, staged,
                                    std::filesystem::copy_options::overwrite_existing, ec);
+        if (!ec) {
+            std::filesystem::rename(staged, installPath, ec);
+            if (ec) {
+                std::error_code ignored;
+                std::filesystem::remove(staged, ignored);
+            }
+        }
         if (ec) {
             std::cerr << "Failed to install the new binary to " << installPath << ": "
                       << ec.message() << std::endl;
